@@ -291,7 +291,9 @@ class Source:
             for lo, hi in ranges:
                 cands = items_in(self.src, self.msk, lo, hi)
                 sel += [c for c in cands if (kind is None or c.kind == kind) and
-                        (c.name == name or ("<" in name and getattr(c, "full_name", None) == name))]
+                        (c.name == name or ("<" in name and getattr(c, "full_name", None) == name)
+                         or (c.kind == "impl" and "::" in c.name and
+                             re.sub(r"(?:::)?(?:\w+::)+", "", c.name) == name))]
             if last:
                 found = sel
             else:
